@@ -22,6 +22,10 @@ def template(name, k1, k2, k3):
         return [{k1: {k2: {k3: {"leaf": 1}}}, "tail": [{"leaf2": "1.5"}]}]
     if name == "optional_pseudo":
         return [{k1: "12", k2: [{"n": "1.5", k3: "true"}]}, {k2: []}]
+    if name == "odd_values_nested":
+        # odd characters in the string values (future Literal members) and keys of NESTED models (indentation code sees them)
+        return [{k1: {k3: "v\u2028w", "emoji": "\U0001F600", "n\x85el": 1}, k2: [{"lit": "a\u2029b"}, {"lit": "plain"}]},
+                {k1: {k3: "other", "emoji": "x", "n\x85el": 2}, k2: []}]
     if name == "deep_sole_import":
         # three levels; the first sibling's grandchild is the only user of Dict/Any/Optional/Literal; the last sibling needs no import
         return [{k1: {"mid": {"extra": {}, "opt": None, "lit": "abc", k3: 1}, "m": 1}, k2: {"plainint": 1}, "zlast": {"n": 2}},
@@ -33,7 +37,7 @@ def template(name, k1, k2, k3):
     raise ValueError(name)
 
 
-TEMPLATES_QUICK = ["flat_scalars", "nested_object", "list_of_objects", "two_similar_children", "odd_string_values", "deep_sole_import"]
+TEMPLATES_QUICK = ["flat_scalars", "nested_object", "list_of_objects", "two_similar_children", "odd_string_values", "deep_sole_import", "odd_values_nested"]
 TEMPLATES_FULL = TEMPLATES_QUICK + ["deep_chain", "optional_pseudo", "recursive"]
 
 
